@@ -78,8 +78,8 @@ PLANS["C09"] = {
 }
 
 PLANS["C15"] = {
-    "quick": [J("c15-codec", "quick", 120, test="TestE3"), J("puborder", "p=1,f=1", 60)],
-    "thorough": [J("c15-codec", "thorough", 900, test="TestE3"), J("puborder", "p=2,f=1,s=1", 600), J("restart", "c=1,p=1", 300)],
+    "quick": [J("c15-codec", "quick", 120, test="TestE3"), J("c15-denied", "quick", 60, test="TestE3", shards=1), J("puborder", "p=1,f=1", 60)],
+    "thorough": [J("c15-codec", "thorough", 900, test="TestE3"), J("c15-denied", "thorough", 60, test="TestE3", shards=1), J("puborder", "p=2,f=1,s=1", 600), J("restart", "c=1,p=1", 300)],
 }
 PLANS["C20"] = {
     "quick": [J("c20-doubles", "quick", 120, test="TestE3"), J("race-doubles", "free-running, -race", 120, test="TestE3", shards=1, race=True)],
